@@ -14,11 +14,35 @@ import vlib
 
 MC_CFG = "SPECIFICATION Spec\nCONSTANTS\n  Truncate = %s\n  MaxSteps = %d\nINVARIANTS FileIsExactlyTheReport StdoutIsExactlyTheReport FailuresPrintNoReport ReportOnlyFromValidate OtherCommandsExit%s\nPROPERTIES OnlyValidateToFileWrites\nCHECK_DEADLOCK FALSE\n"
 
+# embedded Rego next to declarative constraints that draw generated identifiers
+REGO_PROFILE = """#%Validation Profile 1.0
+profile: with embedded rego
+prefixes:
+  ex: http://example.org/ns#
+violation:
+  - r1
+  - d1
+validations:
+  r1:
+    targetClass: ex.T
+    message: custom check
+    rego: |
+      v = object.get($node, "http://example.org/ns#p", "")
+      $result = (v != "forbidden")
+  d1:
+    targetClass: ex.T
+    message: declarative next to it
+    propertyConstraints:
+      ex.child / ex.q:
+        minCount: 1
+      ex.q:
+        pattern: ^ok$
+"""
 PAIRS = {
     # one line of more than 1 MiB (minified graph)
     1: (corpus.OK_PROFILE, json.dumps([corpus.node(i, p="v" * 40, q="ok") for i in range(9000)])),
     # percent signs in the message and in a node id: the output must not be treated as a format string
-    2: (corpus.OK_PROFILE.replace("p is required", "100% of p is required %s %d %v"),
+    2: (REGO_PROFILE.replace("declarative next to it", "100% of p is required %s %d %v"),
         c09.DOCS["fail1"].replace("http://example.org/n1", "http://example.org/my%20node%n1")),
     3: (c15.RICH_PROFILE, c15.RICH_DATA),
 }
@@ -66,7 +90,8 @@ def run(tier):
     ref_rows = [{"id": "pair%d" % i, "op": "validate", "profile": p, "data": d} for i, (p, d) in PAIRS.items()] + \
                [{"id": "policy%d" % i, "op": "generate", "profile": p, "data": ""} for i, (p, d) in PAIRS.items()] + \
                [{"id": "normalized%d" % i, "op": "normalize", "profile": "", "data": d} for i, (p, d) in PAIRS.items()]
-    gen_profiles = [corpus.OK_PROFILE, corpus.OK_PROFILE_NESTED, c15.RICH_PROFILE] + [p for p, _, _ in corpus.fixture_pairs()[:: (12 if quick else 2)]]
+    gen_profiles = [corpus.OK_PROFILE, corpus.OK_PROFILE_NESTED, c15.RICH_PROFILE, REGO_PROFILE,
+                    corpus.OK_PROFILE.replace("p is required", "no rego here, only the word")] + [p for p, _, _ in corpus.fixture_pairs()[:: (12 if quick else 2)]]
     numeric = json.dumps([{"@id": "http://example.org/num", "@type": ["http://example.org/ns#T"]}])[:-2] + \
         ', "http://example.org/ns#a": 1.0, "http://example.org/ns#b": 1e2, "http://example.org/ns#c": 0.10, ' \
         '"http://example.org/ns#d": 12345678901234567890, "http://example.org/ns#e": -0.0, "http://example.org/ns#f": 1E-7, ' \
